@@ -792,3 +792,533 @@ Proof.
   - unfold first_info, v_existing, kind_is in V. cbn in V. unfold value_equiv, v_existing. cbn.
     rewrite (info_eqb_sym_true _ _ V). reflexivity.
 Qed.
+
+(* ================================================================================================ *)
+(* c08_description_edit                                                                             *)
+(* ================================================================================================ *)
+
+Lemma strs_injective l1 : forall l2, strs l1 = strs l2 -> l1 = l2.
+Proof.
+  induction l1 as [|x l1 IH]; intros [|y l2] H; try reflexivity; try discriminate H.
+  unfold strs in H. cbn [map] in H. inversion H. f_equal. apply IH. assumption.
+Qed.
+
+Section SigFacts.
+Variable H0 : bytes -> N.
+Variable HC : N -> token -> N.
+
+(* a node whose producer list changes gets another signature (premise: the fold is collision-free, BSys/Sig.v) *)
+Theorem node_sig_changes d1 d2 n : ideal_fold0 HC ->
+  map cm_name (producers d1 n) <> map cm_name (producers d2 n) ->
+  rule_sig H0 HC d1 (KN n) <> rule_sig H0 HC d2 (KN n).
+Proof.
+  intros I Hn E. unfold rule_sig, node_sig in E. apply I in E. unfold node_sig_tokens, node_def in E.
+  cbn [n_type n_producers] in E. inversion E as [E']. apply strs_injective in E'. contradiction.
+Qed.
+
+(* an input node becoming a produced node, or the reverse *)
+Corollary input_becomes_produced d1 d2 n : ideal_fold0 HC ->
+  producers d1 n = [] -> producers d2 n <> [] ->
+  rule_sig H0 HC d1 (KN n) <> rule_sig H0 HC d2 (KN n) /\ rule_sig H0 HC d2 (KN n) <> rule_sig H0 HC d1 (KN n).
+Proof.
+  intros I P1 P2.
+  assert (Hn : map cm_name (producers d1 n) <> map cm_name (producers d2 n)).
+  { rewrite P1. destruct (producers d2 n); [congruence | discriminate]. }
+  split; [apply node_sig_changes; assumption | apply node_sig_changes; [assumption | congruence]].
+Qed.
+
+(* and the rule itself changes kind *)
+Theorem input_becomes_produced_rule d1 d2 n : node_type n = 0 ->
+  producers d1 n = [] -> producers d2 n <> [] ->
+  lookup_rule d1 (KN n) = RFileInput n /\ lookup_rule d2 (KN n) = RProduced n (producers d2 n).
+Proof.
+  intros T P1 P2. unfold lookup_rule, node_virtual. rewrite P1, T. cbn [N.eqb].
+  split; [reflexivity|]. destruct (producers d2 n); [congruence | reflexivity].
+Qed.
+
+(* a changed command definition: the signature-area theorem (equal signatures -> equal relevant parts) is a premise *)
+Theorem command_edit_changes_sig d1 d2 name c1 c2 :
+  (forall x y, shell_sig H0 HC x = shell_sig H0 HC y -> relevant x = relevant y) ->
+  find_cmd (d_cmds d1) name = Some c1 -> find_cmd (d_cmds d2) name = Some c2 ->
+  cm_tool c1 = TShell -> cm_tool c2 = TShell ->
+  relevant (cm_def c1) <> relevant (cm_def c2) ->
+  rule_sig H0 HC d1 (KC name) <> rule_sig H0 HC d2 (KC name).
+Proof.
+  intros Inj F1 F2 T1 T2 R E. unfold rule_sig in E. rewrite F1, F2 in E. unfold cmd_sig in E. rewrite T1, T2 in E.
+  apply Inj in E. contradiction.
+Qed.
+
+Theorem ext_command_edit_changes_sig d1 d2 name c1 c2 :
+  (forall x y, ext_sig H0 HC x = ext_sig H0 HC y -> ext_relevant x = ext_relevant y) ->
+  find_cmd (d_cmds d1) name = Some c1 -> find_cmd (d_cmds d2) name = Some c2 ->
+  (cm_tool c1 = TPhony \/ cm_tool c1 = TMkdir) -> (cm_tool c2 = TPhony \/ cm_tool c2 = TMkdir) ->
+  ext_relevant (cm_def c1) <> ext_relevant (cm_def c2) ->
+  rule_sig H0 HC d1 (KC name) <> rule_sig H0 HC d2 (KC name).
+Proof.
+  intros Inj F1 F2 T1 T2 R E. unfold rule_sig in E. rewrite F1, F2 in E. unfold cmd_sig in E.
+  assert (E' : ext_sig H0 HC (cm_def c1) = ext_sig H0 HC (cm_def c2)).
+  { destruct T1 as [T1|T1]; destruct T2 as [T2|T2]; rewrite T1, T2 in E; exact E. }
+  apply Inj in E'. contradiction.
+Qed.
+
+(* a removed command: its key resolves to the missing-command rule, whose stored result is never valid and whose
+   task completes with forceChange, so every rule that still depends on it runs again *)
+Theorem removed_command_rule d name : find_cmd (d_cmds d) name = None -> lookup_rule d (KC name) = RMissingCommand.
+Proof. intros H. unfold lookup_rule. rewrite H. reflexivity. Qed.
+
+End SigFacts.
+
+(* ================================================================================================ *)
+(* c08_clean_world_fixpoint                                                                         *)
+(* ================================================================================================ *)
+
+Lemma find_cmd_In l name c : find_cmd l name = Some c -> In c l /\ cm_name c = name.
+Proof.
+  induction l as [|a l IH]; intros H; [discriminate H|]. cbn [find_cmd] in H.
+  destruct (bytes_eqb (cm_name a) name) eqn:E.
+  - inversion H. subst a. apply bytes_eqb_eq in E. split; [left; reflexivity | exact E].
+  - destruct (IH H) as [A B]. split; [right; exact A | exact B].
+Qed.
+
+Lemma find_cmd_unique l c : NoDup (map cm_name l) -> In c l -> find_cmd l (cm_name c) = Some c.
+Proof.
+  induction l as [|a l IH]; intros ND I; [destruct I|]. cbn [find_cmd]. cbn [map] in ND. inversion ND as [|x xs Hx ND']. subst.
+  destruct I as [I|I].
+  - subst a. rewrite bytes_eqb_refl. reflexivity.
+  - destruct (bytes_eqb (cm_name a) (cm_name c)) eqn:E.
+    + apply bytes_eqb_eq in E. exfalso. apply Hx. rewrite E. apply in_map. exact I.
+    + apply IH; assumption.
+Qed.
+
+Lemma filter_nil {A : Type} (f : A -> bool) l : (forall y, In y l -> f y = false) -> filter f l = [].
+Proof.
+  induction l as [|a l IH]; intros H; [reflexivity|]. cbn [filter]. rewrite (H a (or_introl eq_refl)).
+  apply IH. intros y I. apply H. right. exact I.
+Qed.
+
+Lemma filter_unique {A : Type} (f : A -> bool) l x :
+  NoDup l -> In x l -> f x = true -> (forall y, In y l -> f y = true -> y = x) -> filter f l = [x].
+Proof.
+  induction l as [|a l IH]; intros ND I Fx U; [destruct I|]. inversion ND as [|a' l' Ha ND']. subst. cbn [filter].
+  destruct I as [I|I].
+  - subst a. rewrite Fx. f_equal. apply filter_nil. intros y Iy. destruct (f y) eqn:Fy; [|reflexivity].
+    exfalso. apply Ha. rewrite <- (U y (or_intror Iy) Fy). exact Iy.
+  - destruct (f a) eqn:Fa.
+    + exfalso. apply Ha. rewrite (U a (or_introl eq_refl) Fa). exact I.
+    + apply IH; [exact ND' | exact I | exact Fx | intros y Iy; apply U; right; exact Iy].
+Qed.
+
+Lemma run_file_input_frame w w' n : w_fs w' n = w_fs w n -> run_file_input w' n = run_file_input w n.
+Proof. intros H. unfold run_file_input, stat_w. rewrite H. reflexivity. Qed.
+
+Lemma fi_is_dir_fresh w s : fi_is_dir (fresh w mode_dir s) = true.
+Proof. reflexivity. Qed.
+
+Lemma wf_world_of_sources src : wf_world (world_of_sources src).
+Proof.
+  unfold world_of_sources. generalize wf_empty_world. generalize empty_world.
+  induction src as [|[p c] src IH]; intros w W; cbn [fold_left]; [exact W|].
+  apply IH. apply wf_write_fresh. exact W.
+Qed.
+
+Section Clean.
+Variable F : command -> nat -> list (option bytes) -> bytes.
+Variable d : desc.
+Variable epoch : N.
+Hypothesis WF : wf_desc d.
+
+Definition in_vals (vals : list (key * bvalue)) (k : key) : Prop := lookup_val vals k <> None.
+Definition get_val (vals : list (key * bvalue)) (k : key) : bvalue :=
+  match lookup_val vals k with Some v => v | None => v_simple VInvalid end.
+Definition mono (vals vals' : list (key * bvalue)) : Prop :=
+  forall k v, lookup_val vals k = Some v -> lookup_val vals' k = Some v.
+
+(* what a successful command value must say about the world *)
+Definition recorded_ok (w : world) (c : command) (v : bvalue) : Prop :=
+  match cm_tool c with
+  | TShell => bv_infos v = out_infos w (cm_outputs c) /\ shell_outputs_hold F w c
+  | TPhony => bv_infos v = out_infos w (cm_outputs c)
+  | TMkdir => exists o, cm_outputs c = [o] /\ is_missing (stat_w w o) = false /\ fi_is_dir (stat_w w o) = true
+  | TSymlink => exists o, cm_outputs c = [o] /\ bv_infos v = [stat_w w o] /\ is_missing (stat_w w o) = false /\
+                          content_w w o = Some (cm_contents c)
+  end.
+
+Definition entry_ok (w : world) (vals : list (key * bvalue)) (k : key) (v : bvalue) : Prop :=
+  match k with
+  | KN n => match lookup_rule d (KN n) with
+            | RFileInput _ => v = run_file_input w n
+            | RVirtualInput => v = v_simple VVirtualInput
+            | RProduced _ [c] => in_vals vals (KC (cm_name c)) /\
+                                 result_for_output c n (get_val vals (KC (cm_name c))) = Some v
+            | _ => True
+            end
+  | KC name => match find_cmd (d_cmds d) name with
+               | Some c => (forall n, In n (cm_inputs c) -> in_vals vals (KN n)) /\
+                           (is_successful (bv_kind v) = true -> recorded_ok w c v)
+               | None => True
+               end
+  | KT _ => True
+  end.
+
+Definition inv (st : bstate) : Prop :=
+  wf_world (bs_world st) /\
+  forall k v, lookup_val (bs_vals st) k = Some v -> entry_ok (bs_world st) (bs_vals st) k v.
+
+Definition frame_stack (stack : list key) (vals vals' : list (key * bvalue)) : Prop :=
+  forall x, In x stack -> lookup_val vals x = None -> lookup_val vals' x = None.
+
+Definition frame_out (c : command) (w w' : world) : Prop :=
+  forall p, ~ In p (cm_outputs c) -> w_fs w' p = w_fs w p.
+
+Lemma NoDup_cmds : NoDup (d_cmds d).
+Proof. destruct WF as [ND _]. apply (NoDup_map_inv cm_name). exact ND. Qed.
+
+Lemma cmd_wf c : In c (d_cmds d) -> wf_command c.
+Proof. destruct WF as [_ [H _]]. apply H. Qed.
+
+Lemma outputs_disjoint c1 c2 o : In c1 (d_cmds d) -> In c2 (d_cmds d) -> In o (cm_outputs c1) -> In o (cm_outputs c2) -> c1 = c2.
+Proof. destruct WF as [_ [_ [H _]]]. apply H. Qed.
+
+Lemma producers_unique c n : In c (d_cmds d) -> In n (cm_outputs c) -> producers d n = [c].
+Proof.
+  intros I O. unfold producers. apply filter_unique.
+  - exact NoDup_cmds.
+  - exact I.
+  - unfold produces. apply mem_bytes_In. exact O.
+  - intros y Iy Fy. unfold produces in Fy. apply mem_bytes_In in Fy. apply (outputs_disjoint y c n); assumption.
+Qed.
+
+Lemma lookup_rule_output c n : In c (d_cmds d) -> In n (cm_outputs c) -> lookup_rule d (KN n) = RProduced n [c].
+Proof.
+  intros I O. unfold lookup_rule. rewrite (producers_unique c n I O).
+  destruct WF as [_ [_ [_ H]]]. unfold node_type. rewrite (H c n I O). destruct (is_virtual n); reflexivity.
+Qed.
+
+Lemma file_input_not_output n m c : lookup_rule d (KN n) = RFileInput m -> In c (d_cmds d) -> ~ In n (cm_outputs c).
+Proof. intros R I O. rewrite (lookup_rule_output c n I O) in R. discriminate R. Qed.
+
+Lemma mono_refl vals : mono vals vals.
+Proof. intros k v H. exact H. Qed.
+
+Lemma mono_trans a b c : mono a b -> mono b c -> mono a c.
+Proof. intros H1 H2 k v H. apply H2. apply H1. exact H. Qed.
+
+Lemma mono_cons vals k v : lookup_val vals k = None -> mono vals ((k, v) :: vals).
+Proof.
+  intros L k' v' H. cbn [lookup_val]. destruct (key_eqb k' k) eqn:E; [|exact H].
+  apply key_eqb_eq in E. subst k'. congruence.
+Qed.
+
+Lemma in_vals_mono a b k : mono a b -> in_vals a k -> in_vals b k.
+Proof.
+  intros M H. unfold in_vals in *. destruct (lookup_val a k) as [v|] eqn:E; [|congruence].
+  rewrite (M k v E). discriminate.
+Qed.
+
+Lemma get_val_mono a b k : mono a b -> in_vals a k -> get_val b k = get_val a k.
+Proof.
+  intros M H. unfold in_vals, get_val in *. destruct (lookup_val a k) as [v|] eqn:E; [|congruence].
+  rewrite (M k v E). reflexivity.
+Qed.
+
+Lemma entry_ok_mono w a b k v : mono a b -> entry_ok w a k v -> entry_ok w b k v.
+Proof.
+  intros M H. destruct k as [name|n|t]; cbn [entry_ok] in *.
+  - destruct (find_cmd (d_cmds d) name) as [c|]; [|exact I]. destruct H as [H1 H2].
+    split; [intros n I; apply (in_vals_mono a b _ M); apply H1; exact I | exact H2].
+  - destruct (lookup_rule d (KN n)) as [| | | | |m ps| | |]; try exact H.
+    destruct ps as [|c [|c2 ps]]; try exact H. destruct H as [H1 H2].
+    split; [apply (in_vals_mono a b _ M); exact H1 | rewrite (get_val_mono a b _ M H1); exact H2].
+  - exact I.
+Qed.
+
+Lemma output_node_needs_producer st c n :
+  inv st -> In c (d_cmds d) -> In n (cm_outputs c) -> in_vals (bs_vals st) (KN n) -> in_vals (bs_vals st) (KC (cm_name c)).
+Proof.
+  intros [_ E] I O V. unfold in_vals in V. destruct (lookup_val (bs_vals st) (KN n)) as [v|] eqn:L; [|congruence].
+  specialize (E _ _ L). cbn [entry_ok] in E. rewrite (lookup_rule_output c n I O) in E. exact (proj1 E).
+Qed.
+
+Lemma recorded_ok_frame w w' c v :
+  (forall o, In o (cm_outputs c) -> w_fs w' o = w_fs w o) ->
+  (forall n, In n (cm_inputs c) -> w_fs w' n = w_fs w n) ->
+  recorded_ok w c v -> recorded_ok w' c v.
+Proof.
+  intros Ho Hi R. unfold recorded_ok in *.
+  assert (Hinf : out_infos w' (cm_outputs c) = out_infos w (cm_outputs c)).
+  { unfold out_infos. apply map_ext_in. intros o I. unfold stat_w. rewrite (Ho o I). reflexivity. }
+  destruct (cm_tool c).
+  - destruct R as [R1 R2]. split; [rewrite Hinf; exact R1|].
+    intros j o Hn NV. unfold content_w at 1. rewrite (Ho o (nth_error_In _ _ Hn)).
+    assert (Hic : input_contents w' (cm_inputs c) = input_contents w (cm_inputs c)).
+    { unfold input_contents. apply map_ext_in. intros p Ip. apply filter_In in Ip. unfold content_w. rewrite (Hi p (proj1 Ip)). reflexivity. }
+    rewrite Hic. exact (R2 j o Hn NV).
+  - rewrite Hinf. exact R.
+  - destruct R as [o [E [M D]]]. exists o. assert (Io : In o (cm_outputs c)) by (rewrite E; left; reflexivity).
+    unfold stat_w in *. rewrite (Ho o Io). auto.
+  - destruct R as [o [E [B [M C]]]]. exists o. assert (Io : In o (cm_outputs c)) by (rewrite E; left; reflexivity).
+    unfold stat_w, content_w in *. rewrite (Ho o Io). auto.
+Qed.
+
+(* a command that has not run yet runs: every entry recorded so far stays correct *)
+Lemma entry_ok_world st c w' k v :
+  inv st -> In c (d_cmds d) -> lookup_val (bs_vals st) (KC (cm_name c)) = None -> frame_out c (bs_world st) w' ->
+  lookup_val (bs_vals st) k = Some v -> entry_ok w' (bs_vals st) k v.
+Proof.
+  intros I Ic Lc Fr L. pose proof (proj2 I k v L) as E.
+  assert (Hnot : forall n, in_vals (bs_vals st) (KN n) -> ~ In n (cm_outputs c)).
+  { intros n V O. apply (output_node_needs_producer st c n I Ic O V). exact Lc. }
+  destruct k as [name|n|t]; cbn [entry_ok] in *.
+  - destruct (find_cmd (d_cmds d) name) as [c0|] eqn:Fc; [|exact Logic.I]. destruct E as [E1 E2]. split; [exact E1|].
+    intros S. specialize (E2 S). destruct (find_cmd_In _ _ _ Fc) as [Ic0 Nc0].
+    assert (Hne : c0 <> c) by (intros ->; rewrite Nc0 in Lc; congruence).
+    apply (recorded_ok_frame (bs_world st)); [| |exact E2].
+    + intros o Io. apply Fr. intros Io'. apply Hne. apply (outputs_disjoint c0 c o); assumption.
+    + intros n In_. apply Fr. apply Hnot. apply E1. exact In_.
+  - destruct (lookup_rule d (KN n)) as [| | |m| |m ps| | |] eqn:R; try exact E.
+    rewrite E. symmetry. apply run_file_input_frame. apply Fr. apply (file_input_not_output n m c R Ic).
+  - exact Logic.I.
+Qed.
+
+Lemma run_command_frame w c ins w' v ex :
+  wf_world w -> cm_outputs c <> [] -> run_command F epoch w c None ins = Some (w', v, ex) ->
+  wf_world w' /\ frame_out c w w'.
+Proof.
+  intros W Ne H. unfold run_command in H.
+  assert (Hext : run_external F epoch w c None ins = Some (w', v, ex) -> cm_tool c <> TSymlink -> wf_world w' /\ frame_out c w w').
+  { clear H. intros H NT. unfold run_external in H.
+    destruct (existsb is_unreachable _); [discriminate H|].
+    destruct (existsb is_skip _); [inversion H; subst; split; [exact W | intros p _; reflexivity]|].
+    rewrite andb_false_r in H. cbn [andb] in H. unfold exec_tool in H. destruct (cm_tool c) eqn:T.
+    - inversion H. subst. split; [apply write_outputs_wf; exact W|].
+      intros p Hp. apply write_outputs_other. intros o Io _ E. subst. contradiction.
+    - inversion H. subst. split; [exact W | intros p _; reflexivity].
+    - destruct (cm_outputs c) as [|o outs] eqn:Eo; [congruence|]. cbn [hd] in H.
+      destruct (w_fs w o) as [[cc s]|] eqn:Eo'.
+      + destruct (fi_is_dir s); inversion H; subst; (split; [exact W | intros p _; reflexivity]).
+      + inversion H. subst. split; [apply wf_write_fresh; exact W|].
+        intros p Hp. unfold write_fresh. apply put_fs_other. intros E. apply Hp. rewrite Eo. left. congruence.
+    - congruence. }
+  destruct (cm_tool c) eqn:T; try (apply Hext; [exact H | discriminate]).
+  inversion H as [H']. unfold run_symlink in H'. destruct (cm_outputs c) as [|o outs] eqn:Eo; [congruence|].
+  destruct (is_nil o); inversion H'; subst; [split; [exact W | intros p _; reflexivity]|].
+  split; [apply wf_write_fresh; exact W|]. intros p Hp. unfold write_fresh. apply put_fs_other. intros E. apply Hp. rewrite Eo. left. congruence.
+Qed.
+
+(* what the command records about the world it leaves *)
+Lemma run_command_recorded w c ins w' v ex :
+  wf_world w -> wf_command c -> (forall n, In n (cm_inputs c) -> ~ In n (cm_outputs c)) ->
+  run_command F epoch w c None ins = Some (w', v, ex) -> is_successful (bv_kind v) = true ->
+  recorded_ok w' c v.
+Proof.
+  intros W [ND [Ne Hone]] Hself H S. unfold run_command in H. unfold recorded_ok.
+  assert (Hsk : forall T, cm_tool c = T -> T <> TSymlink ->
+                run_external F epoch w c None ins = Some (w', v, ex) ->
+                exists w1, exec_tool F c w = Some w1 /\ w' = w1 /\ v = command_result epoch w1 (cm_outputs c)).
+  { intros T ET NT H1. unfold run_external in H1.
+    destruct (existsb is_unreachable _); [discriminate H1|].
+    destruct (existsb is_skip _); [inversion H1; subst; discriminate S|].
+    rewrite andb_false_r in H1. cbn [andb] in H1.
+    destruct (exec_tool F c w) as [w1|]; inversion H1; subst; [|discriminate S].
+    exists w'. auto. }
+  destruct (cm_tool c) eqn:T.
+  - destruct (Hsk TShell eq_refl ltac:(discriminate) H) as [w1 [Ex [-> ->]]]. unfold exec_tool in Ex. rewrite T in Ex.
+    inversion Ex as [Ew]. rewrite command_result_infos by exact Ne. split; [reflexivity|].
+    intros j o Hn NV.
+    rewrite (write_outputs_content F c _ _ ND 0 w j o Hn NV). cbn [Nat.add]. f_equal. f_equal.
+    unfold input_contents. apply map_ext_in. intros p Ip. apply filter_In in Ip. destruct Ip as [Ip _].
+    unfold content_w. rewrite write_outputs_other; [reflexivity|].
+    intros o' Io' _ E. subst o'. exact (Hself p Ip Io').
+  - destruct (Hsk TPhony eq_refl ltac:(discriminate) H) as [w1 [Ex [-> ->]]]. unfold exec_tool in Ex. rewrite T in Ex.
+    inversion Ex. subst. rewrite command_result_infos by exact Ne. reflexivity.
+  - destruct (Hsk TMkdir eq_refl ltac:(discriminate) H) as [w1 [Ex [-> ->]]]. unfold exec_tool in Ex. rewrite T in Ex.
+    destruct (Hone (or_introl eq_refl)) as [o [Eo [NV No]]]. exists o. split; [exact Eo|]. rewrite Eo in Ex. cbn [hd] in Ex.
+    destruct (w_fs w o) as [[cc s]|] eqn:Ew.
+    + destruct (fi_is_dir s) eqn:Ds; inversion Ex. subst. unfold stat_w. rewrite Ew. split; [exact (proj1 (W o cc s Ew)) | exact Ds].
+    + inversion Ex. unfold write_fresh. rewrite stat_put_same. split; [apply fresh_not_missing | apply fi_is_dir_fresh].
+  - inversion H as [H']. destruct (Hone (or_intror eq_refl)) as [o [Eo [NV No]]]. exists o. split; [exact Eo|].
+    unfold run_symlink in H'. rewrite Eo in H'. assert (Hn : is_nil o = false) by (destruct o; [congruence | reflexivity]).
+    rewrite Hn in H'. inversion H'. subst. cbn [v_success bv_infos]. split; [reflexivity|].
+    unfold write_fresh. rewrite stat_put_same, content_put_same. split; [apply fresh_not_missing | reflexivity].
+Qed.
+
+Definition good_bk (stack : list key) (bk : bstate -> key -> bres) : Prop :=
+  forall st k st', inv st -> bk st k = BOk st' ->
+    inv st' /\ mono (bs_vals st) (bs_vals st') /\ in_vals (bs_vals st') k /\ frame_stack stack (bs_vals st) (bs_vals st').
+
+Lemma fold_good stack bk : good_bk stack bk -> forall ks st st', inv st -> fold_keys bk ks st = BOk st' ->
+  inv st' /\ mono (bs_vals st) (bs_vals st') /\ (forall k, In k ks -> in_vals (bs_vals st') k) /\
+  frame_stack stack (bs_vals st) (bs_vals st').
+Proof.
+  intros G. induction ks as [|a ks IH]; intros st st' I H; cbn [fold_keys] in H.
+  - inversion H. subst st'. split; [exact I|]. split; [apply mono_refl|]. split; [intros k []|]. intros x _ Hx. exact Hx.
+  - destruct (bk st a) as [st0| | |] eqn:E; try discriminate H.
+    destruct (G st a st0 I E) as [I1 [M1 [V1 S1]]]. destruct (IH st0 st' I1 H) as [I2 [M2 [V2 S2]]].
+    split; [exact I2|]. split; [exact (mono_trans _ _ _ M1 M2)|]. split.
+    + intros k [Hk|Hk]; [subst a; exact (in_vals_mono _ _ _ M2 V1) | exact (V2 k Hk)].
+    + intros x Hx Hn. apply S2; [exact Hx|]. apply S1; assumption.
+Qed.
+
+Lemma record_good stack st k v :
+  inv st -> lookup_val (bs_vals st) k = None -> existsb (key_eqb k) stack = false ->
+  entry_ok (bs_world st) ((k, v) :: bs_vals st) k v ->
+  inv (record st k v) /\ mono (bs_vals st) (bs_vals (record st k v)) /\ in_vals (bs_vals (record st k v)) k /\
+  frame_stack stack (bs_vals st) (bs_vals (record st k v)).
+Proof.
+  intros [W E] L Ex Ek. unfold record. cbn [bs_vals bs_world].
+  assert (M : mono (bs_vals st) ((k, v) :: bs_vals st)) by (apply mono_cons; exact L).
+  split; [split; [exact W|]|split; [exact M|split]].
+  - intros k0 v0 H. cbn [bs_vals bs_world lookup_val] in H |- *. destruct (key_eqb k0 k) eqn:E0.
+    + apply key_eqb_eq in E0. inversion H. subst. exact Ek.
+    + apply (entry_ok_mono _ _ _ _ _ M). apply E. exact H.
+  - unfold in_vals. cbn [bs_vals lookup_val]. rewrite key_eqb_refl. discriminate.
+  - intros x Hx Hn. cbn [bs_vals lookup_val]. destruct (key_eqb x k) eqn:E0; [|exact Hn].
+    apply key_eqb_eq in E0. subst x. exfalso.
+    assert (existsb (key_eqb k) stack = true) by (apply existsb_exists; exists k; split; [exact Hx | apply key_eqb_refl]).
+    congruence.
+Qed.
+
+Lemma frame_stack_cons stack k a b c :
+  frame_stack (k :: stack) a b -> frame_stack stack b c -> frame_stack stack a c.
+Proof. intros H1 H2 x Hx Hn. apply H2; [exact Hx|]. apply H1; [right; exact Hx | exact Hn]. Qed.
+
+Theorem build_good : forall fuel stack, good_bk stack (build_key F fuel d epoch stack).
+Proof.
+  induction fuel as [|f IHf]; intros stack st k st' I H; [discriminate H|]. cbn [build_key] in H.
+  destruct (lookup_val (bs_vals st) k) as [v0|] eqn:L.
+  { inversion H. subst st'. split; [exact I|]. split; [apply mono_refl|]. split; [unfold in_vals; rewrite L; discriminate|].
+    intros x _ Hx. exact Hx. }
+  destruct (existsb (key_eqb k) stack) eqn:Ex; [discriminate H|].
+  destruct k as [name|n|t]; cbn [lookup_rule] in H.
+  - (* command keys *)
+    destruct (find_cmd (d_cmds d) name) as [c|] eqn:Fc.
+    + destruct (find_cmd_In _ _ _ Fc) as [Ic Nc].
+      destruct (fold_keys (build_key F f d epoch (KC name :: stack)) (map KN (cm_inputs c)) st) as [st1| | |] eqn:Ef; try discriminate H.
+      destruct (fold_good _ _ (IHf (KC name :: stack)) _ _ _ I Ef) as [I1 [M1 [V1 S1]]].
+      destruct (run_command F epoch (bs_world st1) c None (map (fun n0 => val_of st1 (KN n0)) (cm_inputs c))) as [[[w' v] ex]|] eqn:Er;
+        [|discriminate H].
+      inversion H. subst st'. clear H. cbn [bs_vals bs_world].
+      assert (L1 : lookup_val (bs_vals st1) (KC name) = None) by (apply S1; [left; reflexivity | exact L]).
+      assert (L1' : lookup_val (bs_vals st1) (KC (cm_name c)) = None) by (rewrite Nc; exact L1).
+      pose proof (cmd_wf c Ic) as Wc.
+      destruct (run_command_frame _ _ _ _ _ _ (proj1 I1) (proj1 (proj2 Wc)) Er) as [W' Fr].
+      assert (M : mono (bs_vals st1) ((KC name, v) :: bs_vals st1)) by (apply mono_cons; exact L1).
+      assert (Hin : forall n0, In n0 (cm_inputs c) -> in_vals (bs_vals st1) (KN n0)) by (intros n0 In0; apply V1; apply in_map; exact In0).
+      assert (Hself : forall n0, In n0 (cm_inputs c) -> ~ In n0 (cm_outputs c)).
+      { intros n0 In0 O. apply (output_node_needs_producer st1 c n0 I1 Ic O (Hin n0 In0)). exact L1'. }
+      split; [split; [exact W'|]|split; [exact (mono_trans _ _ _ M1 M)|split]].
+      * intros k0 v1 Hl. cbn [lookup_val] in Hl. destruct (key_eqb k0 (KC name)) eqn:E0.
+        -- apply key_eqb_eq in E0. subst k0. assert (v1 = v) by congruence. subst v1. cbn [entry_ok]. rewrite Fc. split.
+           ++ intros n0 In0. apply (in_vals_mono _ _ _ M). exact (Hin n0 In0).
+           ++ intros Sv. apply (run_command_recorded _ _ _ _ _ _ (proj1 I1) Wc Hself Er Sv).
+        -- apply (entry_ok_mono _ _ _ _ _ M). apply (entry_ok_world st1 c w' k0 v1 I1 Ic L1' Fr Hl).
+      * unfold in_vals. cbn [lookup_val]. rewrite key_eqb_refl. discriminate.
+      * intros x Hx Hn. cbn [lookup_val]. destruct (key_eqb x (KC name)) eqn:E0.
+        -- apply key_eqb_eq in E0. subst x. exfalso.
+           assert (existsb (key_eqb (KC name)) stack = true) by (apply existsb_exists; exists (KC name); split; [exact Hx | apply key_eqb_refl]).
+           congruence.
+        -- apply S1; [right; exact Hx | exact Hn].
+    + inversion H. subst st'. apply record_good; try assumption. cbn [entry_ok]. rewrite Fc. exact Logic.I.
+  - (* node keys *)
+    destruct (producers d n) as [|c ps] eqn:P.
+    + destruct (node_virtual n) eqn:Vn.
+      * inversion H. subst st'. apply record_good; try assumption. cbn [entry_ok lookup_rule]. rewrite P, Vn. reflexivity.
+      * destruct (N.eqb (node_type n) 1) eqn:Tn; [discriminate H|].
+        inversion H. subst st'. apply record_good; try assumption. cbn [entry_ok lookup_rule]. rewrite P, Vn, Tn. reflexivity.
+    + destruct (N.eqb (node_type n) 1) eqn:Tn; [discriminate H|].
+      destruct ps as [|c2 ps].
+      * destruct (build_key F f d epoch (KN n :: stack) st (KC (cm_name c))) as [st1| | |] eqn:Eb; try discriminate H.
+        destruct (IHf (KN n :: stack) st (KC (cm_name c)) st1 I Eb) as [I1 [M1 [V1 S1]]].
+        destruct (result_for_output c n (val_of st1 (KC (cm_name c)))) as [v|] eqn:Er; [|discriminate H].
+        inversion H. subst st'. clear H.
+        assert (L1 : lookup_val (bs_vals st1) (KN n) = None) by (apply S1; [left; reflexivity | exact L]).
+        destruct (record_good stack st1 (KN n) v I1 L1 Ex) as [I2 [M2 [V2 S2]]].
+        { cbn [entry_ok lookup_rule]. rewrite P, Tn.
+          assert (M : mono (bs_vals st1) ((KN n, v) :: bs_vals st1)) by (apply mono_cons; exact L1).
+          split; [apply (in_vals_mono _ _ _ M); exact V1|]. rewrite (get_val_mono _ _ _ M V1). exact Er. }
+        split; [exact I2|]. split; [exact (mono_trans _ _ _ M1 M2)|]. split; [exact V2|].
+        exact (frame_stack_cons _ _ _ _ _ S1 S2).
+      * inversion H. subst st'. apply record_good; try assumption. cbn [entry_ok lookup_rule]. rewrite P, Tn. exact Logic.I.
+  - (* target keys *)
+    destruct (find_target (d_targets d) t) as [ns|] eqn:Ft; [|discriminate H].
+    destruct (fold_keys (build_key F f d epoch (KT t :: stack)) (map KN ns) st) as [st1| | |] eqn:Ef; try discriminate H.
+    destruct (fold_good _ _ (IHf (KT t :: stack)) _ _ _ I Ef) as [I1 [M1 [V1 S1]]].
+    inversion H. subst st'. clear H.
+    assert (L1 : lookup_val (bs_vals st1) (KT t) = None) by (apply S1; [left; reflexivity | exact L]).
+    destruct (record_good stack st1 (KT t) (v_simple VTarget) I1 L1 Ex Logic.I) as [I2 [M2 [V2 S2]]].
+    split; [exact I2|]. split; [exact (mono_trans _ _ _ M1 M2)|]. split; [exact V2|].
+    exact (frame_stack_cons _ _ _ _ _ S1 S2).
+Qed.
+
+Lemma inv_initial w : wf_world w -> inv (mkBS w [] []).
+Proof. intros W. split; [exact W|]. intros k v H. discriminate H. Qed.
+
+(* a recorded successful command value is valid in the world the invariant speaks about *)
+Lemma recorded_ok_valid w c v :
+  wf_command c -> is_successful (bv_kind v) = true -> c_always_out_of_date (cm_def c) = false ->
+  recorded_ok w c v -> cmd_valid d w c v = Valid.
+Proof.
+  intros [_ [_ Hone]] S A R. unfold recorded_ok in R. unfold cmd_valid.
+  assert (Hext : bv_infos v = out_infos w (cm_outputs c) ->
+                 is_result_valid (c_always_out_of_date (cm_def c)) v (onodes d w (cm_outputs c)) = Valid).
+  { intros E. unfold is_result_valid. rewrite A, S, E. cbn [negb]. apply outputs_valid_recorded. }
+  destruct (cm_tool c) eqn:T.
+  - apply Hext. exact (proj1 R).
+  - apply Hext. exact R.
+  - destruct R as [o [Eo [M D]]]. unfold mkdir_valid. rewrite S, Eo, M, D. reflexivity.
+  - destruct R as [o [Eo [B [M C]]]]. unfold symlink_valid. rewrite Eo, S, B.
+    destruct (Hone (or_intror eq_refl)) as [o' [Eo' [_ No]]]. rewrite Eo in Eo'. inversion Eo'. subst o'.
+    assert (Hn : is_nil o = false) by (destruct o; [congruence | reflexivity]).
+    rewrite Hn, M. unfold first_info. rewrite B. cbn. rewrite info_eqb_refl. reflexivity.
+Qed.
+
+(* the state after a build that started from an empty database: every recorded node value is current and every
+   recorded successful command value is valid (so a second build finds every rule valid: a null build), and every
+   shell command's outputs hold what the command computes from what its inputs hold *)
+Theorem clean_fixpoint fuel stack w0 k st :
+  wf_world w0 -> build_key F fuel d epoch stack (mkBS w0 [] []) k = BOk st ->
+  wf_world (bs_world st) /\
+  forall k' v, lookup_val (bs_vals st) k' = Some v ->
+    match lookup_rule d k' with
+    | RFileInput _ | RVirtualInput => rule_valid d (bs_world st) k' v = Valid
+    | RProduced _ _ => produced_valid v = true -> rule_valid d (bs_world st) k' v = Valid
+    | RCommand c => is_successful (bv_kind v) = true ->
+                    (c_always_out_of_date (cm_def c) = false -> rule_valid d (bs_world st) k' v = Valid) /\
+                    (cm_tool c = TShell -> shell_outputs_hold F (bs_world st) c)
+    | _ => True
+    end.
+Proof.
+  intros W0 H. destruct (build_good fuel stack _ _ _ (inv_initial w0 W0) H) as [[W E] _]. split; [exact W|].
+  intros k' v L. specialize (E k' v L). unfold rule_valid.
+  destruct k' as [name|n|t].
+  - cbn [lookup_rule]. cbn [entry_ok] in E. destruct (find_cmd (d_cmds d) name) as [c|] eqn:Fc; [|exact Logic.I].
+    intros S. destruct E as [_ E]. specialize (E S). destruct (find_cmd_In _ _ _ Fc) as [Ic _]. split.
+    + intros A. apply recorded_ok_valid; try assumption. apply cmd_wf. exact Ic.
+    + intros T. unfold recorded_ok in E. rewrite T in E. exact (proj2 E).
+  - cbn [entry_ok] in E. destruct (lookup_rule d (KN n)) as [| | |m| |m ps| | |] eqn:R; try exact Logic.I.
+    + rewrite E. reflexivity.
+    + assert (m = n).
+      { unfold lookup_rule in R. destruct (producers d n); [|destruct (N.eqb (node_type n) 1); discriminate R].
+        destruct (node_virtual n); [discriminate R|]. destruct (N.eqb (node_type n) 1); [discriminate R|]. inversion R. reflexivity. }
+      subst m. rewrite E. rewrite file_valid_run. reflexivity.
+    + intros Pv. rewrite Pv. reflexivity.
+  - cbn [lookup_rule]. destruct (find_target (d_targets d) t); exact Logic.I.
+Qed.
+
+End Clean.
+
+Theorem clean_world_fixpoint F d src t st :
+  wf_desc d -> clean F d src t = BOk st ->
+  wf_world (bs_world st) /\
+  forall k v, lookup_val (bs_vals st) k = Some v ->
+    match lookup_rule d k with
+    | RFileInput _ | RVirtualInput => rule_valid d (bs_world st) k v = Valid
+    | RProduced _ _ => produced_valid v = true -> rule_valid d (bs_world st) k v = Valid
+    | RCommand c => is_successful (bv_kind v) = true ->
+                    (c_always_out_of_date (cm_def c) = false -> rule_valid d (bs_world st) k v = Valid) /\
+                    (cm_tool c = TShell -> shell_outputs_hold F (bs_world st) c)
+    | _ => True
+    end.
+Proof.
+  intros WF H. unfold clean in H. apply (clean_fixpoint F d 1 WF _ _ _ _ _ (wf_world_of_sources src) H).
+Qed.
